@@ -86,6 +86,9 @@ def plan(tier, seed):
                 flavors = list(G.FLAVORS)
             if os.environ.get("C09_ONLY_FLAVORS"):
                 flavors = [f for f in flavors if f in os.environ["C09_ONLY_FLAVORS"].split(",")] or [os.environ["C09_ONLY_FLAVORS"].split(",")[0]]
+            flavors = [fl for fl in flavors if repr(dims) in sup.get(fl, {}).get(o.name, {})]
+            if "asan" not in flavors:
+                continue
             cfgs = None
             for fl in flavors:
                 s_ = set(sup.get(fl, {}).get(o.name, {}).get(repr(dims), []))
@@ -94,7 +97,7 @@ def plan(tier, seed):
             if not ordered:
                 continue
             grng = gen_rng(seed, "vgroup/%s/%d" % (o.name, rnd))
-            g = G.make_group(gid, o, grng, ordered, 1, 36 if quick else 64, dims=dims)
+            g = G.make_group(gid, o, grng, ordered, 1, (36 if quick else 64) // o.weight, dims=dims)
             gid += 1
             progs.append((G.Program("c09_s%d_%s_v%d_%s" % (seed, tier[0], rnd, n), [g]), flavors))
     return progs
